@@ -71,7 +71,7 @@ def jobs(tier, seed):
             if ok and any(op in ("f1", "f2") for op in h):
                 hist.append(list(h))
     js = []
-    for cls in ("ThresholdOptimizer", "CorrelationRemover", "GridSearch", "ExponentiatedGradient", "Adversarial", "AdversarialAuto"):
+    for cls in ("ThresholdOptimizer", "CorrelationRemover", "GridSearch", "ExponentiatedGradient", "Adversarial", "AdversarialAuto", "ThresholdOptimizerGroups"):
         for ci in range(0, len(hist), 12):
             js.append({"id": f"{cls}-{ci // 12}", "cls": cls, "histories": hist[ci:ci + 12]})
     torch_hist = [h for h in hist if "k" not in h and "c" not in h and len(h) <= 3]
@@ -253,6 +253,38 @@ class AdvAdapter(Adapter):
         return p
 
 
+class TOGroupsAdapter(TOAdapter):
+    """the two data sets differ in WHICH sensitive-feature values occur (D1: three groups, D2: two of them): nothing learnt for a group that is absent
+    from the data of the latest fit may survive; the fitted model is observed on a probe that contains a row of every group"""
+    symbolic = False
+    Y6, G6 = [1, 0, 1, 0, 1, 0], [0, 0, 1, 1, 2, 2]
+    PROBE = [0.75, 0.25, 0.5, 0.5, 0.9, 0.1]
+
+    def datasets(self, mk):
+        return {"f1": {"n": 6, "scores": [0.9, 0.2, 0.6, 0.4, 0.8, 0.3]}, "f2": {"n": 4, "scores": [0.75, 0.25, 0.5, 0.5]}}
+
+    def fit(self, est, D):
+        n = D["n"]
+        est.estimator.scores = D["scores"]
+        return est.fit(np.arange(n).reshape(-1, 1), self.Y6[:n], sensitive_features=[tc.GROUPS[v] for v in self.G6[:n]])
+
+    def _probe(self, est):
+        for holder in (est, getattr(est, "interpolated_thresholder_", None)):
+            if holder is not None:
+                holder.estimator.scores = self.PROBE
+                if hasattr(holder, "estimator_"):
+                    holder.estimator_.scores = self.PROBE
+
+    def observe(self, est, D):
+        self._probe(est)
+        pm = est._pmf_predict(np.arange(6).reshape(-1, 1), sensitive_features=[tc.GROUPS[v] for v in self.G6])
+        return [round(float(v), 12) for v in np.asarray(pm, dtype=float)[:, 1]]
+
+    def predict(self, est, D, seed):
+        self._probe(est)
+        return list(est.predict(np.arange(6).reshape(-1, 1), sensitive_features=[tc.GROUPS[v] for v in self.G6], random_state=seed))
+
+
 class AdvAutoAdapter(AdvAdapter):
     """the 'automatic' sentinel values of the schedule parameters: batch_size=-1 (one batch = all rows of the data being fitted)"""
     epochs, batch_size = 2, -1
@@ -297,7 +329,7 @@ class AdvTorchAdapter(Adapter):
         return p
 
 
-ADAPTERS = {"AdvTorch": AdvTorchAdapter, "ThresholdOptimizer": TOAdapter, "CorrelationRemover": CRAdapter, "GridSearch": GSAdapter, "ExponentiatedGradient": EGAdapter, "Adversarial": AdvAdapter, "AdversarialAuto": AdvAutoAdapter}
+ADAPTERS = {"AdvTorch": AdvTorchAdapter, "ThresholdOptimizer": TOAdapter, "CorrelationRemover": CRAdapter, "GridSearch": GSAdapter, "ExponentiatedGradient": EGAdapter, "Adversarial": AdvAdapter, "AdversarialAuto": AdvAutoAdapter, "ThresholdOptimizerGroups": TOGroupsAdapter}
 
 
 def _eq_params(a, b):
